@@ -279,6 +279,13 @@ def addOrCombine : Headers → Bytes → Bytes → Headers
       else (k', v) :: t
     else (k', v') :: addOrCombine t k v
 
+/-- `colonPos > 0 && (line[colonPos - 1] == ' ' || line[colonPos - 1] == '\t')` on `raw = line.substr(0, colonPos)`:
+whitespace between the field name and the colon (RFC 9112 §5.1; repair FC15d) -/
+def nameEndsWithOWS (raw : Bytes) : Bool :=
+  match raw.getLast? with
+  | some c => isOWS c
+  | none => false
+
 /-- the header-line loop of `fromWireFormat` after the request line: (headers, hostCount) or status -/
 def parseReqLines : List Bytes → Headers → Nat → Except Nat (Headers × Nat)
   | [], h, n => .ok (h, n)
@@ -291,9 +298,11 @@ def parseReqLines : List Bytes → Headers → Nat → Except Nat (Headers × Na
         match indexOf? (· == 58) line with
         | none => parseReqLines rest h n
         | some colon =>
-          let name := trim (line.take colon)
-          let value := trim (line.drop (colon + 1))
-          parseReqLines rest (addOrCombine h name value) (if ciEq name (ascii "Host") then n + 1 else n)
+          if nameEndsWithOWS (line.take colon) then .error 400          -- `Content-Length : 5` (FC15d)
+          else
+            let name := trim (line.take colon)
+            let value := trim (line.drop (colon + 1))
+            parseReqLines rest (addOrCombine h name value) (if ciEq name (ascii "Host") then n + 1 else n)
 
 /-- mirrors `HttpRequest::fromWireFormat(data)` for data that contains a header terminator -/
 def fromWireFormat (data : Bytes) : Except Nat Request :=
